@@ -30,7 +30,7 @@ META = {
 }
 REQUIRED_ORACLES = ["wire-order", "journal-row", "stored-counter", "no-duplicate-error", "all-tasks-finish", "gapfill-coverage"]
 NSHARDS = 16
-SCEN = ["S1", "S1b", "S2", "S2b", "S2c", "S3", "S3b", "S4", "S5", "S6", "S7"]
+SCEN = ["S1", "S1b", "S2", "S2b", "S2c", "S3", "S3b", "S4", "S5", "S6", "S7", "S8", "S8b"]
 DEPTH = {"quick": 7, "thorough": 11}
 MAXRUNS = {"quick": 700, "thorough": 30000}
 NRAND = {"quick": 25, "thorough": 1500}
@@ -42,7 +42,7 @@ def plan(tier, seed):
 
 def scenario_def(name):
     """role, setup sends, explored tasks (lists of actions), inbound frames (builders), ticks"""
-    d = {"role": "acceptor", "setup": 0, "tasks": [], "inbound": [], "ticks": 0, "hb": False, "logon": True}
+    d = {"role": "acceptor", "setup": 0, "tasks": [], "inbound": [], "ticks": 0, "hb": False, "logon": True, "death": False}
     if name == "S1":
         d.update(tasks=[["app:a1", "app:a2"], ["app:b1"], ["test_req"]])
     elif name == "S1b":
@@ -63,6 +63,11 @@ def scenario_def(name):
         d.update(inbound=[("gap",), ("app",)], tasks=[["app:x1"], ["app:y1"]])
     elif name == "S7":
         d.update(tasks=[["test_req"], ["test_req"], ["app:x1"]], ticks=2, hb=True)
+    elif name == "S8":
+        # the socket dies while senders are parked in drain(): every parked and later drain() raises, later writes go nowhere
+        d.update(tasks=[["app:a1", "app:a2"], ["app:b1"], ["app:c1"]], death=True)
+    elif name == "S8b":
+        d.update(role="initiator", setup=2, inbound=[("tr", "T1")], tasks=[["app:x1"], ["test_req", "app:y1"]], death=True)
     elif name == "S6":
         d.update(inbound=[("badhb",)], tasks=[["test_req", "app:x1"], ["app:y1"]])
     return d
@@ -85,9 +90,13 @@ async def run_schedule(name, clock, choices, rnd=None, max_decisions=80):
     peer = E.Peer("PEER", "ME")
     gated = {"on": False}
 
+    dead = {"on": False, "eof": False, "lost": []}
+
     async def drain_hook():
         if gated["on"]:
             await sched.wait("drain")
+        if dead["on"]:
+            raise ConnectionResetError("Connection lost")
     ep.vf_writer.drain_hook = drain_hook
 
     def hook(label):
@@ -112,6 +121,9 @@ async def run_schedule(name, clock, choices, rnd=None, max_decisions=80):
     orig_add = ep.vf_tap.add
 
     def tap_add(data):
+        if dead["on"]:
+            dead["lost"].append(data)      # a transport that lost its connection discards what is written to it
+            return
         marks.append(in_resend["on"])
         orig_add(data)
     ep.vf_tap.add = tap_add
@@ -200,8 +212,12 @@ async def run_schedule(name, clock, choices, rnd=None, max_decisions=80):
                 if i not in started:
                     opts.append(("start", i))
                     break              # tasks are started in their listed order (symmetry reduction), at any time
-            if inbound:
+            if inbound and not dead["on"]:
                 opts.append(("feed", None))
+            if d["death"] and not dead["on"] and any(g.label == "drain" for g in sched.gates):
+                opts.append(("die", None))
+            if dead["on"] and not dead["eof"]:
+                opts.append(("eof", None))
             if ticks > 0 and d["hb"]:
                 opts.append(("tick", None))
             if not opts:
@@ -231,6 +247,11 @@ async def run_schedule(name, clock, choices, rnd=None, max_decisions=80):
                 tasks.append(asyncio.get_running_loop().create_task(run_task(arg, d["tasks"][arg])))
             elif kind == "feed":
                 ep.vf_reader.feed(build_inbound(inbound.pop(0)))
+            elif kind == "die":
+                dead["on"] = True
+            elif kind == "eof":
+                dead["eof"] = True
+                ep.vf_reader.set_exception(ConnectionResetError("Connection lost"))
             elif kind == "tick":
                 ticks -= 1
                 await asyncio.sleep(1.0)
@@ -240,7 +261,7 @@ async def run_schedule(name, clock, choices, rnd=None, max_decisions=80):
             "frames": frames, "all_frames": ep.vf_tap.frames(), "marks": marks[tap0:], "results": results, "unfinished": unfinished, "first_new": first_new,
             "live": ep._session.next_num_out, "stored": j.create_or_load("PEER", "ME").next_num_out,
             "rows": {}, "state": ep.connection_state.name, "swallowed": list(ep.vf_log.exceptions), "overlap": overlap,
-            "reader_dead": E.task_failure(ep),
+            "reader_dead": E.task_failure(ep), "death": dead["on"], "writes_after_death": len(dead["lost"]),
         }
         for b in j.recover_messages(ep._session, D.OUTBOUND, 0, sys.maxsize):
             obs["rows"][j.find_seq_no(b)] = b
@@ -268,6 +289,9 @@ def judge(acc, name, trace, obs, cid):
         acc.violation("schedule-did-not-terminate", obs["error"], w, cid)
         return
     keys = []
+    if obs.get("death"):
+        acc.add("schedules_with_socket_death")
+        acc.add("writes_discarded_after_death", obs.get("writes_after_death", 0))
 
     def V(key, what, during_resend=False):
         keys.append((key, what, during_resend))
@@ -325,6 +349,8 @@ def judge(acc, name, trace, obs, cid):
     acc.oracle("no-duplicate-error")
     for i, res in obs["results"].items():
         for a, r in res:
+            if r.startswith("raised:ConnectionResetError") and obs.get("death"):
+                continue        # the sender is told that its socket died: the expected outcome
             if r.startswith("raised:"):
                 V("sender-saw-exception:" + r.split(":")[1], f"task {i} action {a}: {r}", "DuplicateSeqNoError" in r and _any_resend(obs))
     for e in obs["swallowed"]:
@@ -348,7 +374,12 @@ def judge(acc, name, trace, obs, cid):
     acc.oracle("stored-counter")
     if seen_new or obs["frames"]:
         want = highest + 1
-        if obs["stored"] != want or obs["live"] != want:
+        if obs.get("death"):
+            # numbers journaled (write-ahead) whose frames the dead transport discarded lie above the highest number on the wire
+            top = max([n for n in obs["rows"]] + [highest])
+            if obs["stored"] != obs["live"] or obs["stored"] < want or obs["stored"] != top + 1:
+                V("final-counter-wrong:after-socket-death", f"highest number on the wire {highest}, highest journaled {top}: stored next-out {obs['stored']}, live {obs['live']}")
+        elif obs["stored"] != want or obs["live"] != want:
             V("final-counter-wrong", f"highest number sent {highest}: stored next-out {obs['stored']}, live {obs['live']}, expected {want}", _any_resend(obs))
     if not keys:
         return
